@@ -204,6 +204,10 @@ func c01MakeSrc(r *core.Rand, v2019, frag bool, phoneVar int) ([]byte, ref.Param
 	if frag {
 		q.Sum = uint16(2 + r.Intn(5))
 		q.No = uint16(1 + r.Intn(int(q.Sum)))
+		if r.Chance(1, 4) { // the package fields are the terminal's business: zero, one, maximal, inconsistent
+			q.Sum = core.Pick(r, []uint16{0, 0, 1, 65535, 0x7e7d})
+			q.No = core.Pick(r, []uint16{0, 1, 65535, q.Sum})
+		}
 	}
 	return ref.Build(q), q
 }
